@@ -89,6 +89,12 @@ theorem shapes_inside_canvas (len : List Char → Nat) (cat : Catalogue) (mx my 
       f.frag.InRange 0 ((mx + 2) * 1000) 0 ((my + 2) * 2000)) :=
   span_shapes_inCanvas len cat mx my hmx hmy s hs acc rest h
 
+/-- **…at every scale**: a fragment inside the unit-scale box is, after `Fragment::scale` by the
+numerator `k` of the scale, inside the box scaled by `k` — which is `canvasSize` (next theorem) -/
+theorem scaled_shapes_inside_scaled_canvas (W H k : Int) (hk : 0 ≤ k) (f : Frag)
+    (h : f.InRange 0 W 0 H) : (f.scale k).InRange 0 (W * k) 0 (H * k) :=
+  scale_inRange W H k hk f h
+
 /-- the canvas of the model is exactly that box: `canvasSize` at unit scale over a cell set whose
 largest column and row are `mx`, `my` -/
 theorem canvas_is_that_box (cfg : Cfg) (c : Cell × Char) (cs : List (Cell × Char)) :
